@@ -49,7 +49,8 @@ check('C06', TV,
       'vector (log-linear QF_LRA + boundary QF_NRA). Layer B: the real solve() point satisfies the user constraints '
       'and get() equals the directly evaluated objective.',
       'Trusted: oracle definitions of atoms; harness stub of IPCone.to_soc (listed; justified by the tower theorem '
-      'obligations run in the same check); monotonicity of log. exp-cone atoms, LMI/logdet/rootdet are outside.',
+      'obligations run in the same check); monotonicity of log; for exp atoms only congruence and positivity of exp are '
+      'used (sound for unsat). KL divergence, LMI/logdet/rootdet are outside.',
       'SMT translation validation (QF_LRA/QF_NRA inclusion, block-sliced) + compositional power-cone abstraction',
       'DESIGN.md section 4 C06')
 
